@@ -414,9 +414,9 @@ func (c *CW) stats() dumpStats {
 
 func waitLimit() time.Duration {
 	if processFailed {
-		return 300 * time.Millisecond
+		return 2 * time.Second
 	}
-	return 20 * time.Second
+	return 30 * time.Second
 }
 
 // closeAllAndCollect releases every reference the harness holds (sequentially), forces a
